@@ -156,7 +156,7 @@ def cases(ctx):
     # (2) order independence
     yield Case('h_reset', 'm', nontrivial=False, tag='reset', domain=False)
     names = G.op_names()
-    for _ in range(ctx.n(6, 200)):
+    for _ in range(ctx.n(12, 300)):
         n = rng.choice([2, 3, 4]) if rng.random() < 0.8 else rng.randrange(5, 9)
         tx = G.gen_tx(rng, names, kind='segwit', max_in=n, max_out=3, min_out=n if n <= 3 else 1, big=False)
         while len(tx.inputs) != n:
@@ -166,8 +166,12 @@ def cases(ctx):
         for t in tx.inputs: t.script_sig.script.clear() if False else None
         kinds = [rng.choice(['legacy', 'v0', 'v1']) for _ in range(n)]
         hts = [rng.choice([1, 2, 0x81, 0x82] if k != 'v1' else [0, 1, 2, 0x81]) for k in kinds]
-        keys = [rng.randrange(1, N) for _ in range(n)]
-        base = f'{tx_to_line(tx)} ' + ' '.join([str(n)] + [f'{kinds[i]}:{hts[i]}:{keys[i]}' for i in range(n)])
+        pool = [rng.randrange(1, N) for _ in range(rng.choice([1, 2, n]))]          # often one key signs several inputs
+        keys = [rng.choice(pool) for _ in range(n)]
+        trees = [rng.randrange(3) for _ in range(n)]                                  # taproot inputs commit to different script trees
+        if rng.random() < 0.4:       # one key, all taproot, distinct trees: state kept on the key object would make the order matter
+            kinds = ['v1'] * n; keys = [pool[0]] * n; trees = [i % 3 for i in range(n)]; hts = [rng.choice([0, 1, 2, 0x81]) for _ in range(n)]
+        base = f'{tx_to_line(tx)} ' + ' '.join([str(n)] + [f'{kinds[i]}:{hts[i]}:{keys[i]}:{trees[i]}' for i in range(n)])
         perms = list(itertools.permutations(range(n))) if n <= (4 if ctx.thorough else 3) else [tuple(rng.sample(range(n), n)) for _ in range(6)]
         ref = {'ans': None}
         for pm in [tuple(range(n))] + [p for p in perms if p != tuple(range(n))]:
@@ -253,9 +257,11 @@ def perm_sign(F):
     n = len(tx.inputs)
     spks = [Script(['OP_1', ('%02x' % (i + 1)) * 32]) for i in range(n)]
     amts = [1000 + i for i in range(n)]
+    keyobjs = {}
+    TREES = [None, [Script(['OP_1'])], [[Script(['OP_2']), Script(['OP_3'])], Script(['OP_4'])]]
     for i in order:
-        kind, ht, d = specs[i][0], int(specs[i][1]), int(specs[i][2])
-        k = PrivateKey(secret_exponent=d); pub = k.get_public_key()
+        kind, ht, d, tr = specs[i][0], int(specs[i][1]), int(specs[i][2]), int(specs[i][3])
+        k = keyobjs.setdefault(d, PrivateKey(secret_exponent=d)); pub = k.get_public_key()       # one object per key
         code = Script(['OP_DUP', 'OP_HASH160', pub.to_hash160(), 'OP_EQUALVERIFY', 'OP_CHECKSIG'])
         if kind == 'legacy':
             if ht & 0x1f == 3 and i >= len(tx.outputs): ht = 1
@@ -266,6 +272,6 @@ def perm_sign(F):
             sig = k.sign_segwit_input(tx, i, code, amts[i], ht)
             tx.witnesses[i] = TxWitnessInput([sig, pub.to_hex()])
         else:
-            sig = k.sign_taproot_input(tx, i, spks, amts, sighash=ht)
+            sig = k.sign_taproot_input(tx, i, spks, amts, tapleaf_scripts=TREES[tr], sighash=ht)
             tx.witnesses[i] = TxWitnessInput([sig])
     return 'ok ' + tx.to_hex()
